@@ -225,11 +225,24 @@ def exhaustive_cases(primes):
     return cases
 
 
+def exhaustive_multi(ranges):
+    """every operand pair (zero divisors included) of the product rings Z_6, Z_30 (, Z_105): the multi-field classes"""
+    cases = []
+    for lo, hi in ranges:
+        q = math.prod(primes_in(lo, hi)); c = ['multi %d %d' % (lo, hi)]
+        for a in range(q):
+            for b in range(q):
+                c += ['add %d %d' % (a, b), 'sub %d %d' % (a, b), 'mul %d %d' % (a, b), 'eq %d %d' % (a, b)]
+                if q <= 30: c += ['mad %d %d %d' % (a, b, d) for d in (0, 1, q - 1)] + ['aam %d %d %d' % (a, b, d) for d in (0, 1, q - 1)]
+        cases.append(c)
+    return cases
+
+
 def run(ctx):
     ctx.rule = ('cases = (characteristic or prime range) followed by 6-24 operations with boundary-directed operands (0, 1, m-1, m, m+1, 2^31+-1, 2^32-1, negative '
                 'ints down to INT_MIN), composite / degenerate characteristics in 12% of the cases; the same file goes to the real class (one stream per class) and to '
                 'gvdriver C10; non-trivial = accepted field and at least 4 arithmetic operations; distinct by the text of the history. '
-                'Plus an exhaustive stream (all operands) for small primes and a rejection stream (every n up to a bound).')
+                'Plus an exhaustive stream (all operands) for small primes, an exhaustive stream over the product rings Z_6 and Z_30 (all operand pairs, zero divisors included) for the six multi-field classes, and a rejection stream (every n up to a bound).')
     vlib.lean_stage(ctx, MODULE, THEOREMS)
     exe, err = harness(ctx)
     if exe is None:
@@ -250,6 +263,9 @@ def run(ctx):
         vlib.correspondence(ctx, s + '_exhaustive', [exe, s], drv, ex, keep_prefix=1, oracle=oracle, shrink=True)
     exq = exhaustive_cases([11, 17, 19, 23] + ([29, 37, 41, 43, 47, 53, 59, 61] if thorough else []))
     vlib.correspondence(ctx, 'zp_ops_exhaustive2', [exe, 'zp_ops'], drv, exq, keep_prefix=1, oracle=oracle)
+    exm = exhaustive_multi([(2, 3), (2, 5)])
+    for s in ('ms_ops', 'ms_shared', 'ms_static', 'mg_ops', 'mg_shared', 'mg_static'):
+        vlib.correspondence(ctx, s + '_exhaustive', [exe, s], drv, exm + (exhaustive_multi([(3, 7)]) if thorough and 'static' not in s else []), keep_prefix=1, oracle=oracle, shrink=True)
     # rejection of every characteristic that is not a prime > 1
     bound = 1000 if thorough else 300
     rej = [['zp %d' % k, 'add 1 1'] for k in range(0, bound)]
